@@ -29,3 +29,23 @@ Definition pair_step (s : list Q * list Q) (e : event) : list Q * list Q :=
   | Update tau => (fst s, match polyak_list tau (fst s) (snd s) with Some t => t | None => snd s end)
   end.
 Definition pair_run (s : list Q * list Q) (es : list event) := fold_left pair_step es s.
+
+(* online / target parameters and normalisation running statistics of one network pair *)
+Record nets := mkN { on_params : list Q; on_stats : list Q; tg_params : list Q; tg_stats : list Q }.
+
+Definition polyak_or_keep (tau : Q) (ps ts : list Q) : list Q :=
+  match polyak_list tau ps ts with Some r => r | None => ts end.
+
+(* the two polyak_update calls made at an update instant: parameters with ptau, running statistics with stau *)
+Definition target_update (ptau stau : Q) (s : nets) : nets :=
+  mkN (on_params s) (on_stats s) (polyak_or_keep ptau (on_params s) (tg_params s)) (polyak_or_keep stau (on_stats s) (tg_stats s)).
+
+(* one unit of the cadence (a vectorised env step for DQN, a gradient step otherwise): training may have
+   replaced the online parameters and running statistics by anything; then, iff the cadence flag is set,
+   the target update happens *)
+Definition unit_step (ptau stau : Q) (s : nets) (u : list Q * list Q * bool) : nets :=
+  let '(np, ns, fl) := u in
+  let s1 := mkN np ns (tg_params s) (tg_stats s) in
+  if fl then target_update ptau stau s1 else s1.
+Definition units_run (ptau stau : Q) (s : nets) (us : list (list Q * list Q * bool)) : nets :=
+  fold_left (unit_step ptau stau) us s.
